@@ -103,11 +103,10 @@ Fixpoint instr_no_d15 (F : nat -> flags) (fuel : nat) (x : instr) : bool :=
 
 Definition nonreplacing (f : flags) : bool := is_none (f_alt f) && is_none (f_balt f).
 
-(* inside the domain of Sim.sim_closed / SimFn.sim_fn (and outside D15): the tree lowering must be what was
-   emitted.  With function-exit probes the theorem's tree is [block ty (pre ++ body' ++ bef(final end)) end] ++ X
-   where pre = the before-code of instruction 0 (the user's, then the entry probes); the implementation emits
-   pre *in front of* the wrapper's opener -- at function entry the operand stack is empty, so for straight-line
-   probe code the two placements are indistinguishable; the comparison accounts for exactly that rotation. *)
+(* inside the domain of Sim.sim_closed / SimFnReal.sim_fn_real (and outside D15): the tree lowering must be exactly
+   what was emitted.  With function-exit probes X the tree is
+       pre ++ [block ty] ++ lowered body (instruction 0 without its before-code) ++ bef(final end) ++ [end] ++ X
+   where pre = the before-code of instruction 0 (the user's, then the entry probes). *)
 Definition tree_tie (c : scase) : bool :=
   let l := s_l c in
   match parse_body (c_body l), flagged_body c with
@@ -118,15 +117,11 @@ Definition tree_tie (c : scase) : bool :=
       if forallb (fun x => nonreplacing (snd x)) fb && negb (is_nil t)
          && forallb (instr_no_branch_sa F n) t && forallb (instr_no_d15 F n) t
       then
-        let inner := flat (flat_map (lower F X) t) ++ f_before (F fe) in
         match X with
-        | [] => list_eqb fop_eqb (inner ++ [FEnd]) (obs_body c)
+        | [] => list_eqb fop_eqb (flat (flat_map (lower F X) t) ++ f_before (F fe) ++ [FEnd]) (obs_body c)
         | _ =>
-            let pre := f_before (F 0) in
-            let thm := FBlock (BtFunc (c_exit_ty l)) :: inner ++ [FEnd] ++ X ++ [FEnd] in
-            let rest := skipn (S (length pre)) thm in
-            list_eqb fop_eqb (FBlock (BtFunc (c_exit_ty l)) :: pre ++ rest) thm
-            && list_eqb fop_eqb (pre ++ FBlock (BtFunc (c_exit_ty l)) :: rest) (obs_body c)
+            let inner := flat (flat_map (lower (F0 F) X) t) ++ f_before (F fe) in
+            list_eqb fop_eqb (f_before (F 0) ++ FBlock (BtFunc (c_exit_ty l)) :: inner ++ [FEnd] ++ X ++ [FEnd]) (obs_body c)
         end
       else true
   | _, _ => true
